@@ -71,6 +71,23 @@ func ruleOwnWrite(p *Prog, r *Reporter) {
 				og := o.origin(target)
 				construct := kind + " " + normaliseD(shortD(target))
 				pos := p.instrPos(in)
+				// a reference into a token (other than the token/block itself) stored into a holder that has mutating methods
+				if st, isSt := in.(*ssa.Store); isSt {
+					vo := o.origin(st.Val)
+					if fa, isFA := st.Addr.(*ssa.FieldAddr); isFA && vo.kind == oRef && vo.viaToken && !isTokenType(st.Val.Type()) && !isImmutableHolder(fa.X.Type()) && o.holderMutates(fa.X.Type()) {
+						r.Bad(pos, name, "alias "+normaliseD(shortD(st.Val))+" into "+typeName(deref(fa.X.Type()))+"."+fieldName(fa), "a reference into a token is stored in a field of "+typeName(deref(fa.X.Type()))+", whose methods write through it: later use of that holder (interning symbols, adding facts) changes the token")
+						continue
+					}
+					// tokens and blocks must not capture memory owned by the caller (mutable after the call)
+					if fa, isFA := st.Addr.(*ssa.FieldAddr); isFA && isTokenType(fa.X.Type()) && vo.kind == oRef {
+						if pa, isPa := vo.root.(*ssa.Parameter); isPa && !vo.viaToken && !isImmutableHolder(pa.Type()) && !isTokenType(pa.Type()) && pa.Parent() == fn {
+							if _, isSlice := pa.Type().Underlying().(*types.Slice); isSlice && fn.Object() != nil && fn.Object().Exported() {
+								r.Bad(pos, name, "capture "+pa.Name()+" into "+typeName(deref(fa.X.Type()))+"."+fieldName(fa), "an exported function stores the caller's slice "+pa.Name()+" into a token: the caller can change the token afterwards by reusing its buffer")
+								continue
+							}
+						}
+					}
+				}
 				_, isGlobal := og.root.(*ssa.Global)
 				switch {
 				case og.kind == oRef && og.viaToken:
